@@ -85,7 +85,10 @@ def gaps(seed, quick):
         "qurl": (b"POST /u HTTP/1.1\r\n" + H + b"Content-Type: application/x-www-form-urlencoded\r\nContent-Length: 11\r\n\r\na=1&bb=22&c", b"HTTP/1.1 200 OK\r\nContent-Length: 0\r\n\r\n"),
         "qchunk": (b"POST /c HTTP/1.1\r\n" + H + b"Transfer-Encoding: chunked\r\n\r\n5\r\nabcde\r\n0\r\n\r\n", b"HTTP/1.1 200 OK\r\nTransfer-Encoding: chunked\r\n\r\n3\r\nxyz\r\n0\r\n\r\n"),
         "q09": (b"GET /old\r\nignored after 0.9", b"old body"),
+        # request decompression (off by default; K reqdecomp=1): a gap inside the compressed request body ends the decompressor
+        "qgzip": (b"POST /z HTTP/1.1\r\n" + H + b"Content-Encoding: gzip\r\nContent-Length: %d\r\n\r\n" % len(zbody) + zbody + get, b"HTTP/1.1 200 OK\r\nContent-Length: 0\r\n\r\nHTTP/1.1 200 OK\r\nContent-Length: 0\r\n\r\n"),
     }
+    extra = {"qgzip": {"reqdecomp": 1}}
     out = []
     for name, (q, s) in E.items():
         for side, stream in (("q", q), ("s", s)):
@@ -99,5 +102,5 @@ def gaps(seed, quick):
                     mine = ([(">" if side == "q" else "<", a)] if a else []) + [("g>" if side == "q" else "g<", g)] + ([(">" if side == "q" else "<", b)] if b else [])
                     arr = ([(">", q)] + mine) if side == "s" else (mine + [("<", s)])
                     for autod in ((0,) if quick else (0, 1)):
-                        out.append(Scn("gap/%s.%s.p%d.g%d.a%d" % (name, side, p, g, autod), arr, {"mode": "raw", "wf": 0, "cls": "gap", "autod": autod, "dump": 0}, (), (), rnd.random() < .8))
+                        out.append(Scn("gap/%s.%s.p%d.g%d.a%d" % (name, side, p, g, autod), arr, dict({"mode": "raw", "wf": 0, "cls": "gap", "autod": autod, "dump": 0}, **extra.get(name, {})), (), (), rnd.random() < .8))
     return out
